@@ -140,13 +140,16 @@ Definition list_limit_of (r : request) : option Z :=
   end.
 
 (* ---------- the etcd watch server's cancel responses ----------
-   watch.go: a WatchCancelRequest makes the stream loop call w.Cancel(id, nil, false), which sends a
-   Canceled response (CompactRevision = 0); cancelling the watch's context then ends the watch
-   goroutine, which calls w.Cancel(id, nil, false) once more and sends a second one.  A watch that ends
-   without a client cancel request gets exactly one.  A range stream (negative start revision) sends
-   none when it ends. *)
+   watch.go: watcher.Cancel sends a Canceled response (CompactRevision = 0) only when it removes the watch from
+   the stream's table itself.  A WatchCancelRequest for a registered watch therefore gets one response; the watch
+   goroutine that then notices its cancelled context finds the id gone and sends nothing (fix of C20-F1: it used
+   to send a second one).  A pure watch that ends without a client cancel (its stream ends) is cancelled by its
+   own goroutine: one response.  A range stream (negative start revision) that ends on its own removes itself
+   without a response.  A cancel request for an id that was never created, or has been cancelled already, gets
+   no response (as in etcd) and leaves the stream usable. *)
 Definition watch_cancel_responses (pure_watch client_cancelled : bool) : N :=
-  (if client_cancelled then 1 else 0) + (if pure_watch then 1 else 0).
+  if client_cancelled then 1 else if pure_watch then 1 else 0.
+Definition unknown_cancel_responses : N := 0.
 
 (* ---------- explicit partial operations on request data ----------
    Where the real handlers index, slice or size something with values that come from the request, the
